@@ -1462,7 +1462,7 @@ ALL += C19_HELPERS + [C19_EXAMINE]
 _NOW = "(tree_after output_dir' acts')"
 _STEP = dict(
     _C19, pyparams=["output_dir", "input_screen", "extra_args", "batch_size"],
-    params=[("output_dir", "fs"), ("input_screen", "spath"), ("batch_size", "Z")],      # extra_args is only handed on
+    params=[("output_dir", "fs"), ("input_screen", "spath"), ("extra_args", "eargs"), ("batch_size", "Z")],      # extra_args is only handed on
     returns="bool", return_state=["acts'"], predefine={"acts": "[]"}, tail_dup=True,
     vars={"acts": "list action", "experiment_name": "ename", "_": "ename",
           "current_iter_index": "Z", "current_plate_idx": "Z", "last_successful_run_meta": "opt Z", "current_screen": "opt spath",
@@ -3093,3 +3093,34 @@ C13_PAIRWISE = dict(
     raises=[("should be filtered before using this method", 6)],
 )
 ALL += [C13_PAIRWISE]
+
+# ---- C19, continued: main() of nextflow/scripts/batchie.py (vocabulary: end of Model/Orchestrate.v; proofs: Proofs/C19SourceMain.v).
+# main() runs in a world `w` (no variable of the source): the output directory as it is now, the crash schedule that is left,
+# the calls made so far.  The mode dispatch, the variable run_next holding one of the two TRANSLATED functions, the while-loop
+# (on explicit fuel), the test `if not should_run_again: break` and the arguments of the call come from the translation.
+_MRES = dict(type="mres", bind="dom", ok="MOk", fold="mfold", unwrap="munwrap", bind_quote="", **{"while": "mwhile"})
+C19_MAIN = dict(
+    file="nextflow/scripts/batchie.py", out="SrcOrchMain.v", imports="Model.Orchestrate Generated.SrcOrchestrate", monad=_MRES,
+    func="main", name="src_main", pyparams=[],
+    params=[("n", "nat"), ("fuel", "nat"), ("argv", "margs"), ("extra", "eargs"), ("w", "world")],
+    returns="world", implicit_return="w", while_fuel="fuel", tail_dup_raise=True,
+    vars={"args": "margs", "remaining_args": "eargs", "run_next": "stepfn", "should_run_again": "bool"},
+    fields={"mode": ("margs", "modename", "a_mode {obj}", "field_of_the_parsed_arguments_is_never_stored {obj} {val}"),
+            "batch_size": ("margs", "Z", "a_batch_size {obj}", "field_of_the_parsed_arguments_is_never_stored {obj} {val}")},
+    eqb={"modename": "modename_eqb"},
+    prims=[
+        ("get_args()", "(argv, extra)", "(margs * eargs)"),                      # get_args() is not translated: it yields the parsed arguments
+        ("'retrospective'", "NRetrospective", "modename"),                       # the two strings argparse's `choices` admits
+        ("'prospective'", "NProspective", "modename"),
+        # a function name is the translated function (C19_RETRO / C19_PROSP)
+        ("run_next_retrospective_step", "src_run_next_retrospective_step", "stepfn"),
+        ("run_next_prospective_step", "src_run_next_prospective_step", "stepfn"),
+        ("os.path.abspath(args.outdir)", "OutDir", "opath"),                     # THE output directory of the world
+        ("os.path.abspath(args.screen)", "SInput", "spath"),                     # the screen the operator gave this invocation
+    ],
+    # one call of the function held in run_next, in the world (Orchestrate.world_call)
+    state_calls=[("__f(output_dir=__o, input_screen=__s, extra_args=__e, batch_size=__b)", ["w"],
+                  "world_call n {f} w {o} {s} {e} {b}", "bool", {"f": "stepfn", "o": "opath", "s": "spath", "e": "eargs", "b": "Z"})],
+    raises=[("Unknown mode", "MEnd IRaised w")],                                 # ValueError before any call: the world is untouched
+)
+ALL += [C19_MAIN]
